@@ -818,6 +818,71 @@ func init() {
 		return e.bytesEq(x, y)
 	})
 
+	// ---- sort.Slice / sort.SliceStable (reflection based swapper): stable insertion sort over the
+	// engine's slice, calling the real less closure; comparisons on symbolic data fork
+	sortSlice := func(fr *frame, a []Value) Value {
+		e := fr.e
+		x := a[0].(Iface)
+		less := a[1]
+		switch s := x.V.(type) {
+		case []Value:
+			if len(s) > 64 {
+				e.unsupported("sort.Slice of more than 64 elements")
+			}
+			lt := func(i, j int) bool {
+				r := e.call(fr, fr.callPos, less, []Value{e.tb.I64(int64(i)), e.tb.I64(int64(j))}).(*Term)
+				return e.Decide(r)
+			}
+			for i := 1; i < len(s); i++ {
+				for j := i; j > 0 && lt(j, j-1); j-- {
+					tmp := e.copyVal(s[j])
+					e.storeSlot(&s[j], s[j-1])
+					e.storeSlot(&s[j-1], tmp)
+				}
+			}
+			return nil
+		case nil:
+			return nil
+		}
+		e.unsupported("sort.Slice of %T", x.V)
+		return nil
+	}
+	reg("sort.Slice", sortSlice)
+	reg("sort.SliceStable", sortSlice)
+	reg("bytes.Compare", func(fr *frame, a []Value) Value {
+		e := fr.e
+		tb := e.tb
+		x, y := a[0].(SliceVal), a[1].(SliceVal)
+		if !x.Len.IsConst() {
+			x.Len = tb.Const(64, e.concretize(x.Len, 4096))
+		}
+		if !y.Len.IsConst() {
+			y.Len = tb.Const(64, e.concretize(y.Len, 4096))
+		}
+		n := x.Len.C
+		if y.Len.C < n {
+			n = y.Len.C
+		}
+		r := tb.I64(0)
+		if x.Len.C < y.Len.C {
+			r = tb.I64(-1)
+		} else if x.Len.C > y.Len.C {
+			r = tb.I64(1)
+		}
+		for i := int64(n) - 1; i >= 0; i-- {
+			xb, yb := e.sliceAt(x, tb.I64(i)), e.sliceAt(y, tb.I64(i))
+			r = tb.Ite(tb.Ult(xb, yb), tb.I64(-1), tb.Ite(tb.Ult(yb, xb), tb.I64(1), r))
+		}
+		return r
+	})
+	reg("internal/bytealg.MakeNoZero", func(fr *frame, a []Value) Value {
+		e := fr.e
+		n := a[0].(*Term)
+		e.allocCheck(n, fr.callPos)
+		return SliceVal{e.newObj(n, "makenozero"), e.tb.I64(0), n, n}
+	})
+	reg("internal/bytealg.Compare", func(fr *frame, a []Value) Value { return intrinsics["bytes.Compare"](fr, a) })
+
 	// ---- strings ----
 	reg("strings.ReplaceAll", func(fr *frame, a []Value) Value {
 		e := fr.e
